@@ -159,30 +159,31 @@ def static_cases(ctx):
             ctx.violation(bad[0], bad[1], {"suite": "static", "tpb": tpb, "hold_ticks": hold_t, "values": vals, "readers": nreaders, "ticks": n})
     # globals
     from isobar.globals import Globals
-    for i in range(ctx.scale(40, 600)):
-        name = "k%d" % r.randint(0, 5)
+    for i in range(ctx.scale(60, 800)):
+        name = "k%d_%d" % (i, r.randint(0, 5))        # fresh names: reads before the first set must give the default
         model = {}
-        ok = True
+        default = r.choice([None, None, -99, 0, False, "", 7])
+        use_default_arg = default is not None or r.random() < 0.5
         for _ in range(r.randint(1, 12)):
-            if r.random() < 0.5:
-                v = r.randint(-5, 5)
+            if r.random() < 0.45:
+                v = r.choice([r.randint(-5, 5), None, 0])
                 Globals.set("verif_" + name, v)
                 model[name] = v
             else:
-                pg = iso.PGlobals("verif_" + name, -99)
+                pg = iso.PGlobals("verif_" + name, default) if use_default_arg else iso.PGlobals("verif_" + name)
                 try:
                     got = next(pg)
                 except Exception as e:
-                    got = type(e).__name__
-                exp = model.get(name, -99)
-                if got != exp:
-                    ok = False
-                    ctx.violation("C07:globals", "PGlobals(%r, default) read %r, expected %r" % (name, got, exp),
-                                  {"suite": "globals", "name": name, "model": dict(model)})
-        ctx.case(("globals", i, name, tuple(sorted(model.items()))), nontrivial=bool(model), validated=False)
-        for k in list(Globals.dict.keys()) if hasattr(Globals, "dict") else []:
-            if str(k).startswith("verif_"):
-                del Globals.dict[k]
+                    got = "raised " + type(e).__name__
+                exp = model.get(name, default)
+                if got != exp or type(got) != type(exp):
+                    ctx.violation("C07:globals", "PGlobals(%r, default=%r) read %r, expected %r (set so far: %r)" % (name, default, got, exp, model),
+                                  {"suite": "globals", "name": name, "default": repr(default), "model": dict(model)})
+                    break
+        ctx.case(("globals", i, name, repr(default), tuple(sorted((k, repr(v)) for k, v in model.items()))), nontrivial=True, validated=False)
+        ctx.count("globals:default=%r" % (default,))
+        for k in [k for k in list(Globals.dict.keys()) if str(k).startswith("verif_")]:
+            del Globals.dict[k]
 
 
 def run(ctx):
